@@ -205,7 +205,7 @@ func init() {
 	reg(PropCfg{ID: "C19", Pkg: "c19", Level: "translation_validation",
 		Rule: "round trip / differential: for every accepted program P (generated by the typed model grammar with unicode strings; a table of every printer-sensitive form - string escapes, floats, match default positions, object keys, any-object literals, singletons, impl blocks, annotations, pub/event, imports, function types, nested infix trees - and every optimizer position of a diverging statement; generated string and float literals; random infix trees built directly as analysed ASTs; the shipped examples and test scripts) the parser AST print P1 and the analysed AST print P2 must parse, be accepted, write the same output with the same outcome on VM and interpreter, and print to themselves (fixed point after one round); compile(Optimize(Analyze(P))) must behave like compile(Analyze(P)); non-trivial = every accepted program; distinct by program text + kind",
 		Jobs: []Job{
-			{Name: "forms", Run: "^TestTableForms$", Shards: [2]int{4, 8}},
+			{Name: "forms", Run: "^(TestTableForms|TestTableModuleForms)$", Shards: [2]int{4, 8}},
 			{Name: "shipped", Run: "^TestTableShipped$", Shards: [2]int{4, 8}},
 			{Name: "parsed", Run: "^TestParsedRoundTrip$", Checks: [2]int{600, 5000}, Shards: [2]int{4, 16}},
 			{Name: "analyzed", Run: "^TestAnalyzedRoundTrip$", Checks: [2]int{600, 5000}, Shards: [2]int{4, 16}},
